@@ -7,6 +7,7 @@ import (
 	"strconv"
 
 	"github.com/f1bonacc1/process-compose/src/command"
+	"github.com/f1bonacc1/process-compose/src/health"
 	"github.com/f1bonacc1/process-compose/src/loader"
 	"github.com/f1bonacc1/process-compose/src/types"
 )
@@ -15,7 +16,8 @@ func vLoaded(replicas int) *types.Project {
 	prj := &types.Project{LogLength: 10, Vars: types.Vars{"V": "g"},
 		ShellConfig: &command.ShellConfig{ShellCommand: "sh", ShellArgument: "-c", ElevatedShellCmd: "sudo", ElevatedShellArg: "-S"},
 		Processes: types.Processes{
-			"p": {Command: "run {{.PC_REPLICA_NUM}} {{.V}}", Replicas: replicas, Description: "d{{.PC_REPLICA_NUM}}"},
+			"p": {Command: "run {{.PC_REPLICA_NUM}} {{.V}}", Replicas: replicas, Description: "d{{.PC_REPLICA_NUM}}",
+				ReadinessProbe: &health.Probe{Exec: &health.ExecProbe{Command: "check {{.PC_REPLICA_NUM}}"}}},
 			"q": {Command: "other"},
 		}}
 	if err := loader.VerifLoadPipeline(prj); err != nil {
@@ -32,6 +34,7 @@ var vScaleTargets = []int{-1, 0, 1, 2, 3, 9, 10, 11}
 // added ones launched, other processes untouched; n < 1 and unknown names fail without effect.
 func verifScaleBody(requests int) {
 	w := vInit()
+	vBindHealth()
 	r0 := []int{1, 2, 3}[verifChooseK("initial.replicas", 3)]
 	prj := vLoaded(r0)
 	// each initial replica either runs until stopped or has already completed (exit 0) when the
@@ -113,6 +116,9 @@ func verifScaleBody(requests int) {
 			}
 			verifAssert("config.numbering", info.ReplicaNum == rc.ReplicaNum && info.Replicas == rc.Replicas && info.ReplicaName == nm && info.Name == rc.Name)
 			verifAssert("config.rendered.for.own.replica", info.Command == rc.Command && info.Description == rc.Description)
+			if rc.ReadinessProbe != nil {
+				verifAssert("probe.rendered.for.own.replica", info.ReadinessProbe != nil && info.ReadinessProbe.Exec.Command == rc.ReadinessProbe.Exec.Command)
+			}
 			if rc.Name == "p" && !completed["p/"+strconv.Itoa(rc.ReplicaNum)] {
 				verifAssert("replica.alive.once", vGet(w.aliveKey, "p/"+strconv.Itoa(rc.ReplicaNum)) == 1)
 			}
